@@ -128,7 +128,7 @@ def gen_scenario(rng, sid, pf):
                     name = ""
             c = {"type": ti, "name": name, "qual": rng.choice(QUALS) if t["qual"] else "",
                  "apsFail": False, "initFail": False, "runFail": False, "closeErr": False,
-                 "ord": rng.choice([-3, 0, 1, 1, 2, 3, 5, 9, 17, 100]),
+                 "ord": rng.choice([-3, 0, 1, 1, 2, 3, 5, 9, 17, 100, -(2 ** 63), 2 ** 63 - 1, -1, 2 ** 62]),
                  "rets": {m: rng.choice(RETS) for m, r in t["methods"] if r}, "proc": None}
             if t["proc"]:
                 c["proc"] = {"early": {}, "after": {}, "faults": []}
